@@ -23,7 +23,7 @@ RULE = ("case = random family + type (no Any leaves) x no_copy set N (random sub
         "after. Oracle SHARE(S, N): a container is passed by reference iff its annotation origin is in N and its elements "
         "are conversion-free (basic scalars, Any, NewType/Optional/Union of those, by-reference containers); observed "
         "shared set must EQUAL the predicted set (extra sharing = missing copy, missing sharing = no-copy not honoured). "
-        "Decode: result shares no container with the input. distinct_nontrivial = distinct (type shape, N, value "
+        "Decode: result shares no container with the input (also containers of Any elements and bare list / dict, alone, Optional, as union members and as fields: the container itself is typed). distinct_nontrivial = distinct (type shape, N, value "
         "fingerprint) triples with at least one mutable container.")
 ASSUMPTIONS = ["sharing is predicted from the annotation's origin, not the runtime class",
                "Any / pass_through positions are excluded (opaque)"]
@@ -192,11 +192,60 @@ def mark_all(v, out):
             mark_all(x, out)
 
 
+ANY_CONTAINERS = [("List[Any]", lambda: [1, "a", None]), ("list", lambda: [1, 2]), ("Dict[str, Any]", lambda: {"a": 1, "b": "x"}),
+                  ("dict", lambda: {"a": 1}), ("Dict[Any, Any]", lambda: {"a": 1, "b": None}), ("List[List[Any]]", lambda: [[1], [2, 3]]),
+                  ("Dict[str, List[Any]]", lambda: {"k": [1, 2]}), ("Set[Any]", lambda: [1, 2]), ("Deque[Any]", lambda: [1, 2]),
+                  ("Tuple[Any, ...]", lambda: [1, 2]), ("Sequence[Any]", lambda: [1]), ("Mapping[str, Any]", lambda: {"a": 1})]
+
+
+def decode_any_containers(fam, rng, rec):
+    """containers typed with Any elements (and bare list / dict): the elements are opaque, the CONTAINER is typed and must
+    be rebuilt - on its own, as Optional, as a union member (in any position) and as a dataclass field."""
+    from mashumaro.codecs.basic import BasicDecoder
+    src, mk = rng.choice(ANY_CONTAINERS)
+    others = rng.sample(["int", "str", "None", "float", "datetime.date"], rng.randint(1, 2))
+    members = others + [src]
+    rng.shuffle(members)
+    shape = rng.choice(["{c}", "Optional[{c}]", "Union[{u}]", "Union[{u}]", "List[Union[{u}]]", "Dict[str, {c}]"]).format(c=src, u=", ".join(members))
+    wrap = (lambda x: [x]) if shape.startswith("List[Union") else (lambda x: {"k": x}) if shape.startswith("Dict[str, ") and shape != src else (lambda x: x)
+    ns = fam.module.__dict__
+    try:
+        T = eval(shape, ns)
+        fam.exec_src(f"@dataclass\nclass AnyHolder(DataClassDictMixin):\n    x: {shape}\n")
+        decs = [("codec", BasicDecoder(T).decode, lambda d: d), ("field", fam.module.AnyHolder.from_dict, lambda d: {"x": d})]
+    except Exception as e:
+        rec.count("any_container_build_failed")
+        return
+    for rname, fn, put in decs:
+        doc = put(wrap(mk()))
+        rec.evaluation()
+        snap = fingerprint(doc)
+        b = containers(doc)
+        try:
+            r = fn(doc)
+        except Exception:
+            rec.count("decode_raised")
+            continue
+        if fingerprint(doc) != snap:
+            rec.violation("decode:input-mutated", {"type": shape, "input": common.short(doc)}, {})
+        sh = set(b) & set(containers(r))
+        if sh:
+            rec.violation("decode:result-shares-container-with-input", {"type": shape, "route": rname, "input": common.short(doc),
+                          "shared": [type(b[k]).__name__ for k in sh]}, {"any_elements": True})
+        else:
+            rec.count("decode_no_share")
+            rec.count("decode_no_share_any_elements")
+            rec.nontrivial(("any-container", shape, rname))
+
+
 def run_case(seed, tier, rec, st):
     from mashumaro.codecs.basic import BasicDecoder, BasicEncoder
     rng = random.Random(seed)
     fam = Family("c18")
     try:
+        if rng.random() < 0.08:
+            decode_any_containers(fam, rng, rec)
+            return
         fmt = rng.choice([None, "orjson", "msgpack", "toml"])
         base = {None: "DataClassDictMixin", "orjson": "DataClassORJSONMixin", "msgpack": "DataClassMessagePackMixin", "toml": "DataClassTOMLMixin"}[fmt]
         # every generated dataclass opts in to dialects, so a call dialect governs the whole tree
